@@ -304,7 +304,9 @@ class Listing:
         items, _ = self._find_slot(blk, j)
         natoms = sum(1 for it in items if it.t == "atom" and it.orig and it.blk == blk)
         whole = j == 0 and k == natoms
-        structural = (".cfi_startproc", ".cfi_endproc", ".cfi_remember_state", ".cfi_restore_state")
+        # directives that describe the procedure or its state stack, not an instruction: never dropped with a deletion
+        structural = (".cfi_startproc", ".cfi_endproc", ".cfi_remember_state", ".cfi_restore_state",
+                      ".cfi_personality", ".cfi_lsda", ".cfi_return_column")
         for it in items:
             if it.t == "cfi" and it.orig and it.blk == blk:
                 adjacent = [a for a in (it.before, it.after) if a is not None]
